@@ -10,12 +10,12 @@ let starts_with s p = String.length s >= String.length p && String.sub s 0 (Stri
 let ends_with s p = String.length s >= String.length p && String.sub s (String.length s - String.length p) (String.length p) = p
 
 type doc_d = { cram : bool; bad : bool; tests : string; sub : string; name : string }
-type proc_d = { flag : char; abort : char; docs : doc_d list }
+type proc_d = { flag : char; shared : bool; abort : char; docs : doc_d list }
 
 let parse_proc (s : string) : proc_d =
   match split_on ':' s with
   | [fa; ds] ->
-    { flag = fa.[0]; abort = fa.[1];
+    { flag = (if fa.[0] = 'W' then 'w' else fa.[0]); shared = (fa.[0] = 'W'); abort = fa.[1];
       docs = List.map (fun d -> match split_on '/' d with
           | [t; sub; name] ->
             let cram = t.[0] = 'c' in
@@ -31,7 +31,7 @@ let executed (d : doc_d) : int list =
   if d.cram then List.init n (fun i -> i) else begin
     let rec go i = if i >= n then [] else if d.tests.[i] = 'S' || d.tests.[i] = 'T' then [i] else i :: go (i + 1) in go 0
   end
-let nexps c = match c with 'P' | 'O' | 'C' -> 1 | _ -> 0
+let nexps c = match c with 'P' | 'O' | 'C' | 'N' -> 1 | _ -> 0
 let dollar_line (d : doc_d) (t : int) : int =
   let rec go u acc = if u >= t then acc else go (u + 1) (acc + 6 + nexps d.tests.[u]) in go 0 0 + 4
 
@@ -54,7 +54,7 @@ let run () = iter_lines (fun line ->
           | _ -> failwith "result") (split_on ';' results) in
       let left = if left = "-" then [] else split_on ',' left in
       let flag = (List.hd procs).flag in
-      bump (Printf.sprintf "flag:%c/processes:%d" flag (List.length procs));
+      bump (Printf.sprintf "flag:%c%s/processes:%d" flag (if (List.hd procs).shared then "(shared)" else "") (List.length procs));
       List.iter (fun p -> bump (Printf.sprintf "abort:%c" p.abort); List.iter (fun d ->
           bump (if d.cram then "doc:cram" else "doc:markdown"); if d.bad then bump "doc:unparsable-include";
           String.iter (fun c -> bump (Printf.sprintf "test:%c" c)) d.tests) p.docs) procs;
@@ -63,7 +63,13 @@ let run () = iter_lines (fun line ->
       note_distinct descr (List.length names >= 2); sample (if String.length line > 400 then String.sub line 0 400 else line);
       let want_exec = ref 0 and want_temp = ref 0 in
       let all_pwds = ref [] in
-      List.iteri (fun pi (p, (exit, probes, wl)) ->
+      List.iteri (fun pi (p, (exit, probes0, wl)) ->
+        (* `<id>|late|yes/no`: TMPDIR looked at again after the test case has been busy for a while *)
+        let late = List.filter (fun f -> match f with [_; "late"; _] -> true | _ -> false) probes0 in
+        let probes = List.filter (fun f -> match f with [_; "late"; _] -> false | _ -> true) probes0 in
+        List.iter (fun f -> match f with
+            | [id; _; v] -> if v <> "yes" then report "SPEC:C18" (Printf.sprintf "process %d test %s: its TMPDIR was removed while the test case was running" pi id) line
+            | _ -> ()) late;
         (* ---- the model of this process's run *)
         let mflag = (match p.flag with 'w' -> FWork | 'k' -> FKeep | _ -> FDefault) in
         let mdocs = if p.abort = 'u' then [] else
@@ -102,8 +108,9 @@ let run () = iter_lines (fun line ->
                 let fail what = report "SPEC:C18" (Printf.sprintf "process %d document %d test %d: %s" pi di t what) line in
                 let pwd = nth f 1 and tmp = nth f 4 in
                 (match p.flag with
-                 | 'w' -> if pwd <> pdir ^ "/given-workdir" then fail ("work directory is " ^ pwd ^ ", not the given one");
-                   if not (starts_with tmp (pdir ^ "/given-workdir/temp.")) then fail ("TMPDIR " ^ tmp ^ " is not the temporary directory inside the given work directory")
+                 | 'w' -> let given = if p.shared then root ^ "/shared-workdir" else pdir ^ "/given-workdir" in
+                   if pwd <> given then fail ("work directory is " ^ pwd ^ ", not the given one");
+                   if not (starts_with tmp (given ^ "/temp.")) then fail ("TMPDIR " ^ tmp ^ " is not the temporary directory inside the given work directory")
                  | 'k' -> if not (starts_with pwd (root ^ "/tmp/execution.") && ends_with pwd ("/" ^ d.name)) then fail ("work directory " ^ pwd ^ " is not <TMPDIR>/execution.*/<document>");
                    if not (starts_with tmp (root ^ "/tmp/temp.")) then fail ("TMPDIR " ^ tmp ^ " is not <TMPDIR>/temp.*")
                  | _ -> if not (starts_with pwd (root ^ "/tmp/execution.") && ends_with pwd ("/" ^ d.name)) then fail ("work directory " ^ pwd ^ " is not <TMPDIR>/execution.*/<document>");
@@ -121,7 +128,8 @@ let run () = iter_lines (fun line ->
                   let want = string_of_bytes (utf8_encode (scrut_test_value (text_of_string arg) (n_of_int (dollar_line d t)))) in
                   if nth f 13 <> want then fail (Printf.sprintf "SCRUT_TEST=%s, expected %s" (nth f 13) want)
                 end;
-                if d.cram && nth f 14 = "unset" then fail "CRAMTMP is not set for a Cram document") mine
+                if d.cram && nth f 14 = "unset" then fail "CRAMTMP is not set for a Cram document";
+                if nth f 15 <> "yes" then fail ("the directory TMPDIR points to (" ^ tmp ^ ") does not exist while the test case runs")) mine
             end) run_docs_l
         end;
         (* ---- --work-directory: the given directory is kept with its content, its temp.* is gone *)
